@@ -15,12 +15,26 @@ def run_group(group, tier, seed):
            "harnesses": 0, "harnesses_ok": 0, "wall_s": 0, "note": "", "fns": g.get("fns", []),
            "trusted": g.get("trusted", []), "bounded": g.get("bounded")}
     t0 = time.time()
+    # runs against a scratch copy of the repository (evaluation of seeded changes, env VERIF_REPO) use a copy of the
+    # harness crate whose path dependency points at that copy; registered checks always analyse /repo itself
+    global KDIR
+    repo = os.path.realpath(os.environ.get("VERIF_REPO", "/repo"))
+    if repo != "/repo":
+        import shutil
+        kd = os.path.join(VERIF, "build", "kani_scratch")
+        os.makedirs(kd, exist_ok=True)
+        shutil.copytree(os.path.join(VERIF, "kani", "src"), os.path.join(kd, "src"), dirs_exist_ok=True)
+        ct = open(os.path.join(VERIF, "kani", "Cargo.toml")).read().replace('path = "/repo"', 'path = "%s"' % repo)
+        open(os.path.join(kd, "Cargo.toml"), "w").write(ct)
+        KDIR = kd
+    else:
+        KDIR = os.path.join(VERIF, "kani")
     env = dict(os.environ)
     env["CARGO_NET_OFFLINE"] = "true"
     env.pop("RUSTFLAGS", None)
     # the lock file of the repository pins the dependency versions (offline)
     try:
-        lock = open("/repo/Cargo.lock").read()
+        lock = open(os.path.join(repo, "Cargo.lock")).read()
         open(os.path.join(KDIR, "Cargo.lock"), "w").write(lock)
     except Exception:
         pass
@@ -70,7 +84,48 @@ def run_group(group, tier, seed):
         # failed checks description
         desc = re.findall(r"Failed Checks: (.*)", out)
         res["violations"].append({"harness": h, "failed_checks": desc[:6], "concrete_input": None})
+    # counterexamples: Kani concrete playback for (at most 3) failed harnesses, replayed natively on the real crate
+    for v in res["violations"][:3]:
+        try:
+            v["concrete_input"] = concrete_playback(v["harness"], env)
+        except Exception as e:
+            v["playback_error"] = str(e)[:300]
     if nfail and not res["violations"]:
         res["violations"].append({"harness": "(unknown)", "failed_checks": re.findall(r"Failed Checks: (.*)", out)[:6], "concrete_input": None})
     res["samples"] = ["kani harness " + h for h in harnesses[:6]]
     return res
+
+
+def native_replay(harness, values, env=None):
+    """run the harness body of kani/src/algebra.rs natively (linked against the repository under analysis) on concrete values"""
+    env = dict(env or os.environ)
+    env["CARGO_NET_OFFLINE"] = "true"
+    env.pop("RUSTFLAGS", None)
+    env["CARGO_TARGET_DIR"] = os.path.join(VERIF, "build", "kani_native_target" + ("_scratch" if KDIR.endswith("kani_scratch") else ""))
+    b = subprocess.run(["cargo", "build", "--offline", "-q", "--bin", "algebra-replay"], cwd=KDIR, env=env, capture_output=True, text=True)
+    exe = os.path.join(env["CARGO_TARGET_DIR"], "debug", "algebra-replay")
+    args = [",".join(str(x) for x in v) for v in values]
+    cmd = "cd %s && CARGO_TARGET_DIR=%s cargo run --offline -q --bin algebra-replay -- %s %s" % (KDIR, env["CARGO_TARGET_DIR"], harness, " ".join(args))
+    if b.returncode != 0 or not os.path.exists(exe):
+        return {"cmd": cmd, "output": "native replay binary does not build: " + b.stderr[-300:], "reproduced": False}
+    p = subprocess.run([exe, harness] + args, capture_output=True, text=True, timeout=120)
+    line = next((l for l in p.stdout.split("\n") if l.startswith(("FAILS", "HOLDS", "OUTSIDE", "UNKNOWN"))), "")
+    return {"cmd": cmd, "output": (line or p.stdout[-300:] or p.stderr[-300:]), "reproduced": line.startswith("FAILS"), "stderr": p.stderr[-400:]}
+
+def concrete_playback(harness, env):
+    """ask Kani for the concrete values of a failing check of `harness` and replay them natively; None if there is none"""
+    cmd = ["cargo", "kani", "--harness", harness, "-Z", "concrete-playback", "--concrete-playback=print", "--output-format", "terse"]
+    p = subprocess.run(cmd, cwd=KDIR, env=env, stdout=subprocess.PIPE, stderr=subprocess.STDOUT, text=True, timeout=1200)
+    out = p.stdout
+    best = None
+    for blk in re.split(r"(?m)^/// Test generated for harness", out)[1:]:
+        kind = re.search(r"Check for `(\w+)`: \"(.*?)\"", blk)
+        if not kind or kind.group(1) == "cover": continue
+        vals = [[int(x) for x in re.findall(r"\d+", m)] for m in re.findall(r"vec!\[([0-9, ]*)\],", blk.split("concrete_vals")[1] if "concrete_vals" in blk else "")]
+        cand = {"check": kind.group(2), "values": vals}
+        nat = native_replay(harness, vals, env)
+        cand["native"] = nat
+        if nat["reproduced"]:
+            return cand
+        best = best or cand
+    return best if (best and best["native"]["reproduced"]) else None
